@@ -135,6 +135,10 @@ def run_case(asm, acc, case):
         lines = li_render(rng, items)
     else:
         items = misc_program(rng, far=case['kind'] == 'far')
+        if case['idx'] % 2:
+            # documented spelling freedoms (numeric / xN / ABI register names, separators, comments): same structure
+            from . import c13
+            lines = [c13.s_item(rng, it)[0] for it in items]
     for compress in (False, True):
         rcase = dict(case, compress=compress)
         ex = progcheck.examine(asm, items, compress, seed='%s-%d' % (case['kind'], case['idx']), nregs=case.get('nregs', 5), lines=lines)
